@@ -25,7 +25,20 @@ func c09Program(rng *rand.Rand) string {
 	w("func ide:bool\n    return err\nend")
 	w("func idm:string\n    return errmsg\nend")
 	w("func ida:[]num p:[]num\n    return p\nend")
+	w("func show3 e:bool m:string n:num\n    print \"show3\" e m n\n    b1 = e\n    s1 = m\nend")
+	w("func showv a:any...\n    print \"showv\" a\nend")
+	conv := func() string {
+		return []string{`(str2num "bad")`, `(str2num "4")`, `(str2bool "bad")`, `(str2bool "true")`, `(str2num "")`}[rng.Intn(5)]
+	}
 	ops := []func(){
+		// a bare err / errmsg EARLIER in the same argument list / array literal / map literal as a LATER term that
+		// changes the error state in place: the earlier value must be the one read when its term was evaluated
+		func() { w("show3 err errmsg %s", strings.Replace(conv(), "str2bool", "str2num", 1)) },
+		func() { w("print \"pr\" err errmsg %s err errmsg", conv()) },
+		func() { w("showv err %s errmsg %s err", conv(), conv()) },
+		func() { nd2 := rng.Intn(1000); w("le%d := [err %s err]\nprint le%d\nab = le%d[:2]", nd2, strings.Replace(conv(), "str2num", "str2bool", 1), nd2, nd2) },
+		func() { nd2 := rng.Intn(1000); w("lm%d := [errmsg (sprint %s) errmsg]\nprint lm%d\nas[0] = lm%d[0]", nd2, conv(), nd2, nd2) },
+		func() { nd2 := rng.Intn(1000); w("mk%d := {a:err b:%s c:err}\nprint mk%d", nd2, strings.Replace(conv(), "str2num", "str2bool", 1), nd2) },
 		func() { w("x1 = x2") }, func() { w("x2 = x1") }, func() { w("x1 = an[%d]", rng.Intn(3)) },
 		func() { w("an[%d] = x1", rng.Intn(3)) }, func() { w("mn.a = x2") }, func() { w("x2 = mn.b") },
 		func() { w("w1 = x1") }, func() { w("x1 = w1.(num)") }, func() { w("b1 = err") }, func() { w("s1 = errmsg") },
